@@ -72,6 +72,16 @@ class CmdScenario(wfscn.ProgScenario):
             tag = 'rerun-before-the-pending-completion-check-of-the-failure'
             if pend and tag not in h:
                 h.append(tag)
+            # ... or before a pending re-evaluation of a join fed by the
+            # failed task (the task is still ERROR until its start request
+            # is handled: the stale refresh fails the join and the workflow)
+            n = q("select count(*) from delayed_calls_v2 where "
+                  "target_method_name like '%_refresh_task_state%'")[0][0]
+            n += q("select count(*) from scheduled_jobs_v2 where "
+                   "func_name like '%_refresh_task_state%'")[0][0]
+            tag = 'rerun-before-the-pending-join-refresh-of-the-failure'
+            if n and tag not in h:
+                h.append(tag)
         if kind in ('resume', 'resume_sub'):
             idle = [r[0] for r in q("select id from task_executions_v2 "
                                     "where state='IDLE'")]
